@@ -69,7 +69,7 @@ def cmp_sweep(model, sw):
     """compare the implementation's sweep JSON with the model's logical state; returns None or text"""
     exp = model.logical()
     if sw.get('rc') != 0: return 'inq failed rc=%s' % sw.get('rc')
-    for k in ('nd', 'nv', 'ng', 'unlim', 'fmt', 'nreqs', 'busage', 'bsize', 'numrecs', 'mfp'):
+    for k in ('nd', 'nv', 'ng', 'unlim', 'fmt', 'nreqs', 'busage', 'bsize', 'numrecs', 'mfp', 'mfp2'):
         if k in exp and exp[k] is not None and sw.get(k) != exp[k]: return '%s: library %r, model %r' % (k, sw.get(k), exp[k])
     def cmp_atts(where, ea, ga):
         if len(ea) != len(ga): return '%s: %d attributes, model %d' % (where, len(ga), len(ea))
